@@ -62,8 +62,32 @@ def invalid(ctx, thorough):
                     r = ctx.call("serde_dec", ty, fmt, m, impl_only=True)
                     if r is not None:
                         ctx.expect(not r.ok, what + " is rejected through serde-" + fmt)
+    # fields that exist in the serde form only: the public halves of the two key pairs of a server setup
+    v = enc_["ServerSetup"]
+    sers = {}
+    for fmt in ("bincode", "json"):
+        r = ctx.call("serde_enc", "ServerSetup", fmt, v, impl_only=True)
+        if r is not None and r.ok:
+            sers[fmt] = r.b(0)
+    npk = 0
+    for which, sk in (("static", v[L.Nh:L.Nh + L.Nsk]), ("fake", v[L.Nh + L.Nsk:])):
+        pkr = ctx.call("ke_pub", sk)
+        if not pkr.ok:
+            continue
+        for label, b in invalid_elements(L.ke, rnd):
+            if len(b) != L.Npk or label == "tag-05":
+                continue
+            for fmt, e in sers.items():
+                m = splice_serde(fmt, e, pkr.b(0), b)
+                if m is None:
+                    continue
+                npk += 1
+                r = ctx.call("serde_dec", "ServerSetup", fmt, m, impl_only=True)
+                if r is not None:
+                    ctx.expect(not r.ok, "ServerSetup: stored %s public key = %s is rejected through serde-%s" % (which, label, fmt))
     if ctx.side == "impl":
         ctx.expect(nserde > 20, "serde splicing located the fields (%d cases)" % nserde)
+        ctx.expect(npk > 4, "serde splicing located the stored public keys of the setup (%d cases)" % npk)
     # key-level decoders
     for label, b in invalid_elements(L.ke, rnd):
         if label == "tag-05":
